@@ -1076,12 +1076,18 @@ fn eq(lhs: &Value, rhs: &Value) -> StdResult<bool, (String, String, String)> {
                 return Ok(true);
             }
 
-            if lock_deref!(xs).len() != lock_deref!(ys).len() {
+            // We compare copies of the item lists so that no lock is held
+            // during the recursive comparisons, because the operands may
+            // share (or be) sub-values of each other (e.g. `[a] == a`).
+            let xs = lock_deref!(xs).clone();
+            let ys = lock_deref!(ys).clone();
+
+            if xs.len() != ys.len() {
                 return Ok(false);
             }
 
-            for (i, x) in lock_deref!(xs).iter().enumerate() {
-                let y = &lock_deref!(ys)[i];
+            for (i, x) in xs.iter().enumerate() {
+                let y = &ys[i];
 
                 let equal =
                     match eq(&x.v, &y.v) {
@@ -1106,12 +1112,16 @@ fn eq(lhs: &Value, rhs: &Value) -> StdResult<bool, (String, String, String)> {
                 return Ok(true);
             }
 
-            if lock_deref!(xs).len() != lock_deref!(ys).len() {
+            // As with lists, we compare copies of the properties so that
+            // no lock is held during the recursive comparisons.
+            let xs = lock_deref!(xs).clone();
+            let ys = lock_deref!(ys).clone();
+
+            if xs.len() != ys.len() {
                 return Ok(false);
             }
 
-            for (k, x) in &lock_deref!(xs) {
-                let ys = &lock_deref!(ys);
+            for (k, x) in &xs {
                 let y =
                     if let Some(y) = ys.get(k) {
                         y
